@@ -48,6 +48,42 @@ enum Src {
     Explicit { cases: Vec<(usize, u64, Vec<u8>)> },
     /// every `stride`-th case of `inner` (expensive parsers in the quick tier)
     Sub { inner: Box<Src>, stride: usize },
+    /// "long input with a lying length": a prefix of a valid encoding, then a length field (LEB128 / u32 / u64)
+    /// that declares 2^64-1, 2^63, 2^40, 2^32-1, payload+1 or exactly the payload, then 65535..200000 bytes of
+    /// real payload - so that a reader that works in chunks or blocks has received its first chunk(s) in
+    /// full before it meets the lie
+    Long { p: usize, seed: Vec<u8>, true_arg: u64, has_arg: bool },
+}
+
+const LONG_PAY: [usize; 5] = [65535, 65536, 65537, 131072, 200000];
+const LONG_LIES: usize = 12;
+const LONG_FILL: [u8; 2] = [0x61, 0x00];
+fn leb(mut v: u64) -> Vec<u8> {
+    let mut o = vec![];
+    loop { let b = (v & 0x7F) as u8; v >>= 7; if v == 0 { o.push(b); return o; } o.push(b | 0x80); }
+}
+fn long_ats(l: usize) -> Vec<usize> {
+    let mut v: Vec<usize> = (0..l.min(5)).collect();
+    if l > 5 { v.push(5 + (l - 5) / 2); }
+    v.push(l);
+    v.dedup();
+    v
+}
+fn long_lie(k: usize, pay: usize) -> Vec<u8> {
+    match k {
+        0 => { let mut v = vec![0xFF; 9]; v.push(0x01); v }
+        1 => { let mut v = vec![0x80; 9]; v.push(0x01); v }                    // 2^63: just above isize::MAX
+        2 => vec![0x80, 0x80, 0x80, 0x80, 0x80, 0x20],                          // 2^40
+        3 => vec![0xFF, 0xFF, 0xFF, 0xFF, 0x0F],                                // 2^32 - 1
+        4 => leb(pay as u64 + 1),
+        5 => leb(pay as u64),
+        6 => vec![0xFF; 4],
+        7 => (pay as u32 + 1).to_le_bytes().to_vec(),
+        8 => (1u64 << 40).to_le_bytes().to_vec(),
+        9 => vec![0xFF; 8],
+        10 => (pay as u64 + 1).to_le_bytes().to_vec(),
+        _ => (pay as u64).to_le_bytes().to_vec(),
+    }
 }
 
 fn positions(l: usize) -> Vec<usize> {
@@ -67,7 +103,7 @@ fn unhex(s: &str) -> Vec<u8> { (0..s.len() / 2).map(|i| u8::from_str_radix(&s[2 
 
 impl Src {
     fn parser(&self) -> Option<usize> {
-        match self { Src::Mut { p, .. } | Src::Enum { p, .. } | Src::Rand { p, .. } => Some(*p), Src::Explicit { .. } => None, Src::Sub { inner, .. } => inner.parser() }
+        match self { Src::Mut { p, .. } | Src::Enum { p, .. } | Src::Rand { p, .. } | Src::Long { p, .. } => Some(*p), Src::Explicit { .. } => None, Src::Sub { inner, .. } => inner.parser() }
     }
     fn len(&self) -> usize {
         match self {
@@ -80,6 +116,7 @@ impl Src {
             Src::Rand { count, .. } => *count,
             Src::Explicit { cases } => cases.len(),
             Src::Sub { inner, stride } => (inner.len() + stride - 1) / stride,
+            Src::Long { seed, has_arg, .. } => long_ats(seed.len()).len() * LONG_LIES * LONG_PAY.len() * LONG_FILL.len() * (if *has_arg { 4 } else { 1 }),
         }
     }
     /// (parser, arg, bytes, origin)
@@ -87,6 +124,19 @@ impl Src {
         match self {
             Src::Sub { inner, stride } => inner.get(i * stride),
             Src::Explicit { cases } => { let c = &cases[i]; (c.0, c.1, c.2.clone(), "explicit") }
+            Src::Long { p, seed, true_arg, has_arg } => {
+                let mut k = i;
+                let pay = LONG_PAY[k % LONG_PAY.len()]; k /= LONG_PAY.len();
+                let lie = k % LONG_LIES; k /= LONG_LIES;
+                let fill = LONG_FILL[k % LONG_FILL.len()]; k /= LONG_FILL.len();
+                let ats = long_ats(seed.len());
+                let at = ats[k % ats.len()]; k /= ats.len();
+                let arg = if *has_arg { [*true_arg, pay as u64 + 1, 1u64 << 40, u64::MAX][k % 4] } else { *true_arg };
+                let mut b = seed[..at].to_vec();
+                b.extend(long_lie(lie, pay));
+                b.resize(b.len() + pay, fill);
+                (*p, arg, b, "long_lying_length")
+            }
             Src::Enum { p, n, alpha, arg } => {
                 let mut b = Vec::with_capacity(*n);
                 let mut k = i;
@@ -185,6 +235,7 @@ impl Src {
             Src::Enum { p, n, alpha, arg } => json!({"k": "enum", "p": names[*p], "n": n, "alpha": hex(alpha), "arg": arg.to_string()}),
             Src::Rand { p, count, salt, args } => json!({"k": "rand", "p": names[*p], "count": count, "salt": salt.to_string(), "args": us(args)}),
             Src::Sub { inner, stride } => json!({"k": "sub", "stride": stride, "inner": inner.to_json(names)}),
+            Src::Long { p, seed, true_arg, has_arg } => json!({"k": "long", "p": names[*p], "seed": hex(seed), "true_arg": true_arg.to_string(), "has_arg": has_arg}),
             Src::Explicit { cases } => json!({"k": "explicit", "cases": cases.iter().map(|c| json!({"p": names[c.0], "arg": c.1.to_string(), "bytes": hex(&c.2)})).collect::<Vec<_>>()}),
         }
     }
@@ -195,6 +246,7 @@ impl Src {
         match v["k"].as_str().unwrap_or("") {
             "mut" => Src::Mut { p: pi(&v["p"]), seed: unhex(v["seed"].as_str().unwrap_or("")), args: ul(&v["args"]), true_arg: u(&v["true_arg"]), salt: u(&v["salt"]) },
             "enum" => Src::Enum { p: pi(&v["p"]), n: v["n"].as_u64().unwrap_or(0) as usize, alpha: unhex(v["alpha"].as_str().unwrap_or("")), arg: u(&v["arg"]) },
+            "long" => Src::Long { p: pi(&v["p"]), seed: unhex(v["seed"].as_str().unwrap_or("")), true_arg: u(&v["true_arg"]), has_arg: v["has_arg"].as_bool().unwrap_or(false) },
             "sub" => Src::Sub { inner: Box::new(Src::from_json(&v["inner"], names)), stride: v["stride"].as_u64().unwrap_or(1).max(1) as usize },
             "rand" => Src::Rand { p: pi(&v["p"]), count: v["count"].as_u64().unwrap_or(0) as usize, salt: u(&v["salt"]), args: ul(&v["args"]) },
             _ => Src::Explicit { cases: v["cases"].as_array().map(|a| a.iter().map(|c| (pi(&c["p"]), u(&c["arg"]), unhex(c["bytes"].as_str().unwrap_or("")))).collect()).unwrap_or_default() },
@@ -453,6 +505,13 @@ fn cost_us(name: &str) -> u64 {
     else { 20 }
 }
 
+/// parsers that read in chunks or blocks (64 KiB `read_vec` chunks, 8 KiB skip buffers, 4096-element
+/// pre-allocation caps, block-structured files): they get the long-input family for every seed
+fn chunked(name: &str) -> bool {
+    ["DataInput", "MappedInput", "SerializableType", "ComplexTypeSerializer", "SmartPtrSerializer", "ZipOffset", "SortedUintVec", "ZReorderMap", "MmapVec",
+     "Dictionary", "DfaCache", "fse", "simd_encoding", "VarInt::decode_multiple", "sequence"].iter().any(|k| name.contains(k))
+}
+
 fn case_json(name: &str, arg: u64, bytes: &[u8], origin: &str) -> Value {
     json!({"cell": name, "parser": name, "arg": arg.to_string(), "bytes": bytes, "origin": origin})
 }
@@ -537,8 +596,12 @@ pub fn run(args: &Args) {
             };
             if seeds.is_empty() { sum.notes.push(format!("no valid encoding could be produced for {}", p.name)); }
             let max_seeds = if args.thorough { 12 } else { 6 };
+            // long inputs with a lying length: every seed for the readers that work in chunks / blocks,
+            // the first two (all in the thorough tier) for the rest
+            let max_long = if args.thorough || chunked(p.name) { max_seeds } else { 2 };
             for (k, s) in seeds.into_iter().take(max_seeds).enumerate() {
                 if s.bytes.len() > 6000 { continue; }
+                if k < max_long { srcs.push(Src::Long { p: pi, seed: s.bytes.clone(), true_arg: s.len, has_arg: p.has_arg }); }
                 srcs.push(Src::Mut { p: pi, seed: s.bytes, args: arg_list(p.has_arg, s.len), true_arg: s.len, salt: rng.next() ^ k as u64 });
             }
             srcs.push(Src::Rand { p: pi, count: if args.thorough { 4000 } else { 300 }, salt: rng.next(), args: arg_list(p.has_arg, 16) });
@@ -549,7 +612,8 @@ pub fn run(args: &Args) {
     if !replaying {
         let mult = if args.thorough { 12 } else { 1 };
         let mut per: std::collections::HashMap<usize, usize> = Default::default();
-        for s in &srcs { if let Some(p) = s.parser() { *per.entry(p).or_insert(0) += s.len(); } }
+        // a long input costs about ten short ones
+        for s in &srcs { if let Some(p) = s.parser() { *per.entry(p).or_insert(0) += s.len() * (if matches!(s, Src::Long { .. }) { 10 } else { 1 }); } }
         srcs = srcs.into_iter().map(|s| match s.parser() {
             Some(p) => {
                 let cap = (4_000_000 / cost_us(ps[p].name)).max(60) as usize * mult;
@@ -601,7 +665,7 @@ pub fn run(args: &Args) {
                 for i in 0..n { sum.eval(p.name, &format!("{}:{}", si, i), nontrivial); }
                 sum.cell_status(p.name, if p.model != 0 { "M+S" } else { "S-only" });
                 let base = match s { Src::Sub { inner, .. } => &**inner, x => x };
-                let kind = match base { Src::Mut { .. } => "cases_mutated_valid", Src::Enum { .. } => "cases_enumerated", _ => "cases_random" };
+                let kind = match base { Src::Mut { .. } => "cases_mutated_valid", Src::Enum { .. } => "cases_enumerated", Src::Long { .. } => "cases_long_lying_length", _ => "cases_random" };
                 *sum.distribution.entry(kind.to_string()).or_insert(0) += n as u64;
             }
         }
